@@ -326,4 +326,43 @@ example : takeIdx [10, 20, 30, 40] [-1, 0, 2, 2] = .ok [40, 10, 30, 30] := by de
 example : takeIdx [10, 20, 30] [3] = .error .indexError := by decide
 example : takeMask [10, 20, 30] [true, false, true] = .ok [10, 30] := by decide
 
+/-! ## format dispatch (`to_file(filename, file_format)` / `from_file(filename, file_format)`) -/
+
+/-- with no format given, reading infers exactly the format that writing inferred, for every file name -/
+theorem dispatch_inferred_same (f : Str) : readFmt f none = writeFmt f none := rfl
+
+/-- each documented format name selects the same, existing, format on both sides, whatever the file name -/
+theorem dispatch_named_same (f nm : Str) (h : nm = nmText ∨ nm = nmRelion ∨ nm = nmDynamo) :
+    readFmt f (some nm) = writeFmt f (some nm) ∧ ∃ fmt, writeFmt f (some nm) = .ok fmt := by
+  rcases h with rfl | rfl | rfl
+  · exact ⟨rfl, _, rfl⟩
+  · exact ⟨rfl, _, rfl⟩
+  · exact ⟨rfl, _, rfl⟩
+
+/-- the inference looks at the end of the lower-cased name only: any spelling of `.star` at the end
+of any name selects RELION … -/
+theorem infer_star (stem suf : Str) (h : lower suf = extStar) : inferFmt (stem ++ suf) = .relion := by
+  unfold lower at h
+  simp [inferFmt, endsWith, lower, List.map_append, h, extStar, List.isPrefixOf]
+
+/-- … any spelling of `.tbl` Dynamo (such a name does not end in `.star`) … -/
+theorem infer_tbl (stem suf : Str) (h : lower suf = extTbl) : inferFmt (stem ++ suf) = .dynamo := by
+  unfold lower at h
+  simp [inferFmt, endsWith, lower, List.map_append, h, extStar, extTbl, List.isPrefixOf]
+
+/-- … and a name that merely *contains* them is a text file -/
+theorem infer_text_examples :
+    inferFmt "a.star.txt".toList = .text ∧ inferFmt "a.tbl.bak".toList = .text ∧ inferFmt "star".toList = .text ∧
+    inferFmt "x.TBL".toList = .dynamo ∧ inferFmt "a.tbl.Star".toList = .relion ∧ inferFmt "a.star.tbl".toList = .dynamo := by
+  decide
+
+/-- `from_file` before `fix: from_file accepts the documented format name "dynamo"`: a table written
+with `file_format="dynamo"` could not be read back under the same name -/
+theorem dispatch_dynamo_name_old_defect :
+    writeFmt [] (some nmDynamo) = .ok .dynamo ∧ readFmtOld [] (some nmDynamo) = .error .valueError ∧
+    readFmt [] (some nmDynamo) = .ok .dynamo := by decide
+
+example : lower ".StAr".toList = extStar := by decide
+example : writeFmt "p.tbl".toList (some nmTbl) = .error .valueError ∧ readFmt "p.tbl".toList (some nmTbl) = .ok .dynamo := by decide
+
 end Pm.C11
